@@ -23,7 +23,7 @@ RULE = (
     "only generated where the remaining final token is a canonical index (elsewhere the draft leaves it unspecified). A case is (base, relative "
     "text); every case is non-trivial; distinct by construction (enumerated) or hash (sampled)."
 )
-ASSUMPTIONS = ["escape decoding default (on); no backslashes in the generated texts"]
+ASSUMPTIONS = ["escape decoding default (on); backslashes only in the dedicated backslash class (texts, and bases that exist as token lists)"]
 
 ALPHABET = ["a", "0", "1", "10", "~", "/", "é", "", "01", "-", "a\nb"]
 OFFSETS = [0, 1, -1, 2, -2, 10, -10, 12, -12]
@@ -275,6 +275,34 @@ def run(spec, ctx):
                         if not o.ok and not isinstance(o.exc, (jsonpath.RelativeJSONPointerError, jsonpath.JSONPointerError)):
                             ctx.violation("application-raised-foreign:%s" % type(o.exc).__name__, {"backslash": True, "base": btxt, "text": rtxt}, {"base": btxt, "relative": rtxt, "route": name, "error": o.desc()})
                             return
+        # bases whose tokens hold backslashes as such (file paths, a trailing backslash, text that looks like an escape):
+        # they exist as token lists (from_parts / a match's pointer, decoding off) - every application and every refusal
+        for btoks in (["C:\\Users\\me", "files", "0"], ["D:\\data\\x", "3"], ["a\\", "1", "b\\u0041"], ["\\u00e9", "0"], ["x\\8", "\\400", "2"], ["\\N{BULLET}", "5", "\\"], ["\\g<0>", "0", "0"]):
+            bp_ = JSONPointer.from_parts(list(btoks), unicode_escape=False)
+            for steps in range(0, len(btoks) + 2):
+                for offset in (None, 1, -1, 2, -2, 10, -10, -12):
+                    for suffix in ("", "#", "/x", "/0"):
+                        ctx.evaluation()
+                        ctx.case(h("bs-base", btoks, steps, offset, suffix))
+                        text = rel_text(steps, offset, suffix)
+                        case = {"backslash": True, "base_tokens": btoks, "text": text}
+                        try:
+                            toks_, marker_ = rp.rel_apply(list(btoks), steps, offset, suffix)
+                            want_, fail_ = (toks_[:-1] + ["#" + toks_[-1]] if marker_ else toks_), None
+                        except rp.RelFail as e:
+                            want_, fail_ = None, str(e)
+                        except ValueError:
+                            continue
+                        for name, fn in (("rel.to(pointer)", lambda: RelativeJSONPointer(text).to(bp_)), ("pointer.to(text)", lambda: bp_.to(text)), ("pointer.to(rel)", lambda: bp_.to(RelativeJSONPointer(text)))):
+                            o = impl.call(fn)
+                            ctx.count("applications_to_bases_with_backslash_tokens")
+                            if fail_:
+                                if o.ok or not isinstance(o.exc, jsonpath.RelativeJSONPointerError):
+                                    ctx.violation("forbidden-application-%s" % ("accepted" if o.ok else "raised-foreign:%s" % type(o.exc).__name__), case, {"base_tokens": btoks, "relative": text, "route": name, "outcome": str(o.value) if o.ok else o.desc(), "why_forbidden": fail_})
+                                    return
+                            elif not o.ok or [str(x) for x in o.value.parts] != want_:
+                                ctx.violation("application-%s" % ("raised:%s" % type(o.exc).__name__ if not o.ok else "yields-wrong-pointer"), case, {"base_tokens": btoks, "relative": text, "route": name, "got": o.desc() if not o.ok else [str(x) for x in o.value.parts], "expected": want_})
+                                return
         for suffix in ("/\\u005cu0041", "/a/\\u005cn", "/\\u005c\\u005c", "/\\u005cu00e9/x", "/\\u0041", "/\\u00e9", "/\\ud83d\\ude00", "/a\\u002fb"):
             for base in ("/a/b", "/0/1", ""):
                 for steps in (0, 1):
